@@ -79,9 +79,19 @@ func c02MarkedCallFails(x *core.X, marks map[string]bool, spec *core.EnvSpec) bo
 		if !closed {
 			return
 		}
-		var log []string
+		// the call, compiled unmarked and on its own, must fail when the library itself runs it: only then has
+		// marking moved a failure of the evaluation to compile time (the reference must agree that it fails)
+		var log, log2 []string
 		r := core.RefEval(n, spec.Build(&log), core.RefOpts{})
-		if r.Fail != nil {
+		if r.Fail == nil {
+			return
+		}
+		p, err := compile(n.Src(), expr.Env(core.Env{}), expr.Optimize(false))
+		if err != nil {
+			found = true
+			return
+		}
+		if _, rerr := run(p, spec.Build(&log2)); rerr != nil {
 			found = true
 		}
 	})
